@@ -6,7 +6,7 @@ import numpy as np
 
 import lazy_dataset
 from .. import hist
-from ..workload import src_ids
+from ..workload import src_ids, norm as W_norm
 
 PROP = 'C12'
 LEVEL = 'exploration'
@@ -241,8 +241,30 @@ def run(case):
             violations.append(hist.viol(
                 'iteration_raised', sig('iteration_raised') + ':' + error[1],
                 'iterator %d raised %s: %s' % (error[0], error[1], error[2])))
+        # the emitted elements must BE the input examples (type and content),
+        # not merely carry their ids
+        def expected_element(i_):
+            ex = {'src': i_}
+            return ('k%d' % i_, ex) if spec.get('items') else ex
+
         for i in range(nit):
             if its[i] is None or violations:
+                continue
+            flat = []
+            for x in outs[i]:
+                if wrap == 'zip_self':
+                    flat += [x[0], x[1]]
+                else:
+                    flat.append(x)
+            for x in flat:
+                sid = src_ids(x)
+                if len(sid) != 1 or W_norm(x) != W_norm(expected_element(sid[0])):
+                    violations.append(hist.viol(
+                        'element_altered', sig('element_altered'),
+                        'iterator %d emitted %r, which is not the input example %r'
+                        % (i, x, expected_element(sid[0]) if sid else None)))
+                    break
+            if violations:
                 continue
             streams = _streams(outs[i], wrap, spec)
             for sname, ids in streams:
